@@ -11,8 +11,9 @@ LEVEL = "model_checking"
 TECHNIQUE = ("bounded model checking (z3 QF_BV) of the elaborated real _LiteDRAMBISTGenerator and _LiteDRAMBISTChecker running "
              "side by side with symbolic base/end/length/random flags, arbitrary memory contents (every read word a fresh solver "
              "variable = every corruption set at once) and arbitrary memory timing; replay on migen.sim")
-EXPLANATION = ("Generator and checker are started with the same symbolic settings.  The generator's k-th (address, word) is logged "
-               "at the port; the checker's k-th read address must equal it and its error count at done must equal the number of "
+EXPLANATION = ("Generator and checker are started with the same symbolic settings.  The generator's k-th address is logged at the "
+               "port and its k-th word where it enters the DMA writer, the checker's k-th returned word where it leaves the DMA reader "
+               "(in-order transport inside the DMA engines is C12's subject); the checker's k-th read address must equal it and its error count at done must equal the number of "
                "positions whose returned word (free input per read) differs from the generator's k-th word -- for all contents, "
                "so 'faithful memory => 0' and 'k corrupted words => k' are special cases.  The generator may only report done after "
                "its last data beat has been taken, and its addresses must lie in [base, end).")
@@ -108,11 +109,22 @@ def bist_bench(name, dw=16, aw=6, force=None):
     gd = Signal(max=NMAX + 2)
     ck = Signal(max=NMAX + 2)
     cd = Signal(max=NMAX + 2)
+    # the k-th generated / checked word is logged at the DMA engines' stream side (in-order transport through the DMA FIFOs to
+    # and from the port is C12's subject); port-side counters are kept for the completion clauses
+    dma_w = [m for n_, m in gen._submodules if type(m).__name__ == "LiteDRAMDMAWriter"][0]
+    dma_r = [m for n_, m in chk._submodules if type(m).__name__ == "LiteDRAMDMAReader"][0]
+    gs = Signal()
+    cs_ = Signal()
+    top.comb += [gs.eq(dma_w.sink.valid & dma_w.sink.ready), cs_.eq(dma_r.source.valid & dma_r.source.ready)]
+    gks = Signal(max=NMAX + 2)
+    cds = Signal(max=NMAX + 2)
     top.sync += [
         If(ws.acc, gk.eq(gk + 1), *[If(gk == i, g_addr[i].eq(wp.cmd.addr)) for i in range(NMAX)]),
-        If(ws.resp, gd.eq(gd + 1), *[If(gd == i, g_data[i].eq(wp.wdata.data)) for i in range(NMAX)]),
+        If(ws.resp, gd.eq(gd + 1)),
+        If(gs, gks.eq(gks + 1), *[If(gks == i, g_data[i].eq(dma_w.sink.data)) for i in range(NMAX)]),
         If(rs.acc, ck.eq(ck + 1), *[If(ck == i, c_addr[i].eq(rp.cmd.addr)) for i in range(NMAX)]),
-        If(rs.resp, cd.eq(cd + 1), *[If(cd == i, c_ret[i].eq(rp.rdata.data)) for i in range(NMAX)]),
+        If(rs.resp, cd.eq(cd + 1)),
+        If(cs_, cds.eq(cds + 1), *[If(cds == i, c_ret[i].eq(dma_r.source.data)) for i in range(NMAX)]),
     ]
     bads = dict(ws.bads)
     bads.update(rs.bads)
